@@ -601,10 +601,7 @@ func (e *Enc) sliceOp(in *ssa.Slice, st *State) {
 		ln := app("slen", x.c[0])
 		lo, hi := get(in.Low, "0"), get(in.High, ln)
 		e.oblige("slice", exprText(in.X)+"["+exprOr(in.Low)+":"+exprOr(in.High)+"]", in.Pos(), and(app("<=", "0", lo), app("<=", lo, hi), app("<=", hi, ln)))
-		r := e.fresh("substr", "Str")
-		e.assume(eq(app("slen", r), app("-", hi, lo)))
-		e.assume(fmt.Sprintf("(forall ((i Int)) (! (=> (and (<= 0 i) (< i (- %s %s))) (= (sat %s i) (sat %s (+ %s i)))) :pattern ((sat %s i))))", hi, lo, r, x.c[0], lo, r))
-		e.set(in, &Val{typ: in.Type(), c: []string{r}})
+		e.set(in, &Val{typ: in.Type(), c: []string{e.substr(x.c[0], lo, hi)}})
 	case *types.Pointer: // pointer to array
 		at := t.Elem().Underlying().(*types.Array)
 		n := num(at.Len())
@@ -794,7 +791,33 @@ func (e *Enc) concat(a, b string) string {
 	if !e.declared[key] {
 		e.declared[key] = true
 		e.assume(eq(app("slen", r), app("+", app("slen", a), app("slen", b))))
-		e.assume(fmt.Sprintf("(forall ((i Int)) (! (= (sat %s i) (ite (< i (slen %s)) (sat %s i) (sat %s (- i (slen %s))))) :pattern ((sat %s i))))", r, a, a, b, a, r))
+		k := e.patTerm(r)
+		e.assume(fmt.Sprintf("(forall ((i Int)) (! (= (sat %s i) (ite (< i (slen %s)) (sat %s i) (sat %s (- i (slen %s))))) :pattern ((sat %s i))))", k, a, a, b, a, k))
+	}
+	return r
+}
+
+// patTerm names a term that holds connectives solvers refuse inside patterns (ite, not, arithmetic) by a fresh constant.
+func (e *Enc) patTerm(r string) string {
+	if !strings.Contains(r, "(ite ") && !strings.Contains(r, "(not ") && !strings.Contains(r, "(+ ") && !strings.Contains(r, "(- ") {
+		return r
+	}
+	k := e.fresh("strk", "Str")
+	e.assume(eq(k, r))
+	return k
+}
+
+// substr: s[lo:hi] as an uninterpreted function of (s, lo, hi) with its length and content facts; the same term is built
+// for a contract's s[lo:hi], so code and contract agree syntactically.
+func (e *Enc) substr(s, lo, hi string) string {
+	f := e.declareFun("str!sub", "(Str Int Int) Str")
+	r := app(f, s, lo, hi)
+	key := "subfact:" + r
+	if !e.declared[key] {
+		e.declared[key] = true
+		e.assume(imp(and(app("<=", "0", lo), app("<=", lo, hi), app("<=", hi, app("slen", s))), eq(app("slen", r), app("-", hi, lo))))
+		k := e.patTerm(r)
+		e.assume(fmt.Sprintf("(forall ((i Int)) (! (=> (and (<= 0 %s) (<= 0 i) (< i (- %s %s)) (<= %s (slen %s))) (= (sat %s i) (sat %s (+ %s i)))) :pattern ((sat %s i))))", lo, hi, lo, hi, s, k, s, lo, k))
 	}
 	return r
 }
